@@ -56,10 +56,10 @@ Is(name) == l <= N /\ Ev[l].ev = name /\ l' = l + 1
 Silent == l' = l /\ UNCHANGED aux
 E == Ev[l]
 
-TInit == Init /\ l = 1 /\ aux = [created |-> {}, keeps |-> <<>>, prev |-> "", renamed |-> {}]
+TInit == Init /\ l = 1 /\ aux = [created |-> {}, keeps |-> <<>>, prev |-> "", renamed |-> {}, coin |-> "bitcoin"]
 
-AuxInit == [created |-> {}, keeps |-> <<>>, prev |-> "", renamed |-> {}]
-TBegin == Is("cmd") /\ BeginFresh(TraceScenario(l)) /\ aux' = AuxInit
+AuxInit == [created |-> {}, keeps |-> <<>>, prev |-> "", renamed |-> {}, coin |-> "bitcoin"]
+TBegin == Is("cmd") /\ BeginFresh(TraceScenario(l)) /\ aux' = [AuxInit EXCEPT !.coin = IF Has(E, "coin") THEN E.coin ELSE "bitcoin"]
 
 \* ---- construction of the callback ------------------------------------------------------------
 TmpBase(name) == SubSeq(name, 1, Len(name) - 8)            \* strip ".csv.tmp"
@@ -99,9 +99,24 @@ TFetched == /\ Is("fetched") /\ pc = "open" /\ E.h = cur
 \* Open or SeekRead failing: reported with the height
 TReadErr == /\ (Is("read_err") \/ Is("nofile")) /\ pc = "open" /\ E.h = cur /\ Fail(cur) /\ UNCHANGED aux
             /\ UNCHANGED <<sc, scan, seen, lastAt, idx, fileMaxH, maxH, cur, open, blk, delivered, tmp, fin, rows>>
-\* verification result is an input (merkle trees are not in the trace) but a success must respect the link
+\* published genesis hashes (independent of types.rs)
+GenesisOf(coin) ==
+  CASE coin = "bitcoin" -> "000000000019d6689c085ae165831e934ff763ae46a2a6c172b3f1b60a8ce26f"
+    [] coin = "testnet3" -> "000000000933ea01ad0ee984209779baaec3ced90fa3f408719526f8d77f4943"
+    [] coin = "namecoin" -> "000000000062b72c5e2ceb45fbc8587e807c155b0da735e6483dfba2f0a9c770"
+    [] coin = "litecoin" -> "12a765e31ffd4059bada1e25190f6e98c99d9714d334efa41a195a7e7e04bfe2"
+    [] coin = "dogecoin" -> "1a91e3dace36e2be3bf030a65679fe821aa1d6ef92e7c9902eb318182c355691"
+    [] coin = "myriadcoin" -> "00000ffde4c020b5938441a0ea3d314bf619eff0b38f32f78f7583cffa1ea485"
+    [] coin = "unobtanium" -> "000004c2fc5fffb810dccc197d603690099a68305232e552d96ccbe8e2c52b75"
+    [] coin = "noteblockchain" -> "270f3e7b185c412d57ba913d10658df54f15201a67d736cb4071a4ec4eb54836"
+    [] OTHER -> "?"
+\* C09: the verdict of --verify is exactly: merkle root matches (logged fact: the tree itself is not in the trace), block 0
+\* hashes to the coin's genesis hash, any other block's prev-hash is the indexed hash of the height below
+LinkOk == cur > 0 => ((cur - 1) \in DOMAIN idx /\ aux.prev = idx[cur - 1].id)
 TVerify == /\ Is("verify") /\ pc = "verify" /\ E.h = cur /\ UNCHANGED aux
-           /\ (E.ok /\ cur > 0 /\ aux.prev # "") => ((cur - 1) \in DOMAIN idx /\ aux.prev = idx[cur - 1].id)
+           /\ (E.ok /\ aux.prev # "") => LinkOk
+           /\ (Has(E, "mr_ok") /\ aux.prev # "") =>
+                 (E.ok <=> (E.mr_ok /\ (cur = 0 => E.hash = GenesisOf(aux.coin)) /\ LinkOk))
            /\ IF E.ok THEN pc' = "deliver" /\ UNCHANGED <<exit, errH>> ELSE Fail(cur)
            /\ UNCHANGED <<sc, scan, seen, lastAt, idx, fileMaxH, maxH, cur, open, blk, delivered, tmp, fin, rows>>
 TDeliver == Is("deliver") /\ E.h = cur /\ E.hash = blk /\ Deliver /\ UNCHANGED aux
